@@ -13,6 +13,49 @@ def load_runners():
     from . import props  # noqa: F401  (registers everything)
 
 
+def selftest(prop, R):
+    """Thorough tier: test the checker both ways. Every seeded change written against this property and every
+    reverted fix: commit mapped to it is applied to a scratch copy of /repo (outside /repo and /verif, removed
+    afterwards); the same rules must report a violation there. A patch that no longer applies is skipped and
+    counted, never a failure of the property."""
+    import json, shutil, subprocess, tempfile
+    from .report import VERIF
+    patches = []
+    sd = os.path.join(VERIF, 'seeded')
+    for d in sorted(os.listdir(sd)) if os.path.isdir(sd) else []:
+        if d.startswith(prop + '-') and os.path.exists(os.path.join(sd, d, 'patch.diff')):
+            patches.append((d, os.path.join(sd, d, 'patch.diff')))
+    mp = os.path.join(VERIF, 'mutants', 'MAP.json')
+    if os.path.exists(mp):
+        for fn, props in json.load(open(mp)).items():
+            if prop in props:
+                patches.append((fn, os.path.join(VERIF, 'mutants', fn)))
+    killed, skipped = [], []
+    for name, path in patches:
+        d = tempfile.mkdtemp(prefix='sfa_self_')
+        try:
+            src = os.path.join(d, 'repo')
+            subprocess.run(['rsync', '-a', '--exclude', 'target', '--exclude', '.git', '--exclude', 'img', '/repo/', src + '/'], check=True)
+            r = subprocess.run(['git', 'apply', '--whitespace=nowarn', path], cwd=src, capture_output=True, text=True)
+            if r.returncode != 0:
+                skipped.append(name)
+                continue
+            R2 = Report(prop, 'quick', R.level, 'self-test')
+            try:
+                F2, _ = extract(src)
+                RUNNERS[prop](F2, R2, 'quick')
+                fired = any(not o[2] for o in R2.obligations)
+            except ExtractError:
+                fired = True  # does not compile any more: trivially not silent
+            R.ob('SELF-detects', name, fired, 'the check reports a violation on the tree with this behaviour-breaking change applied' if fired else
+                 'the check stays silent on a change known to break the property', None)
+            if fired:
+                killed.append(name)
+        finally:
+            shutil.rmtree(d, ignore_errors=True)
+    R.extra['selftest'] = {'changes': len(patches), 'detected': killed, 'skipped_no_longer_apply': skipped}
+
+
 def main(argv=None):
     ap = argparse.ArgumentParser()
     ap.add_argument('prop')
@@ -34,6 +77,8 @@ def main(argv=None):
         F, info = extract(args.src)
         R.extra['analysed'] = info
         RUNNERS[args.prop](F, R, args.tier)
+        if args.tier == 'thorough' and args.src == '/repo':
+            selftest(args.prop, R)
     except ExtractError as e:
         R.violation('EXTRACT', 'facts', 'fact extraction failed (fail closed): %s' % str(e)[-1500:])
     except Exception:
